@@ -30,8 +30,8 @@ RULE = ("(a) COMPLETE enumeration of tag multisets of size 0..4 (quick: size 4 w
         "modes, thorough: all) over {use,not,active,not_active,only} x categories {a, a.b, c(unknown)} x values {x, xy, y}, "
         "interleaved with ordinary tags and schema look-alikes, for EVERY assignment of current values to the known "
         "categories and every provider mode (dict, ValueObject, lazy ValueObject, ActiveTagValueProvider with plain / lazy "
-        "values, get()-only provider, CompositeActiveTagValueProvider queried twice, CompositeTagMatcher over split "
-        "providers); (b) the same for typed categories (NumberValueObject with eq/ne/ge/le/gt/lt x current 1..3, "
+        "values, get()-only provider, CompositeActiveTagValueProvider over plain / lazy sub-providers queried twice "
+        "(+ its get() protocol), CompositeTagMatcher over split providers); (b) the same for typed categories (NumberValueObject with eq/ne/ge/le/gt/lt x current 1..3, "
         "BoolValueObject, malformed tag values), sizes 0..3; (c) Hypothesis: random categories / value objects (custom "
         "compare, contains, lazy) / custom prefixes, separators, ignore_unknown_categories given by constructor, subclass "
         "attribute or instance attribute; (d) Hypothesis: CompositeTagMatcher over active / predicate / nested members; "
@@ -55,7 +55,8 @@ WATCHDOG_S = {"quick": 900, "thorough": 4 * 3600}
 
 DEFAULT_PREFIXES = ["use", "not", "active", "not_active", "only"]
 REGEX_META = set(".^$*+?{}[]\\|()")
-MODES = ["dict", "vo", "vo-lazy", "atvp", "atvp-lazy", "getonly", "composite-provider", "composite-matcher"]
+MODES = ["dict", "vo", "vo-lazy", "atvp", "atvp-lazy", "getonly", "composite-provider", "composite-provider-lazy",
+         "composite-matcher"]
 
 logging.getLogger("behave.active_tags").addHandler(logging.NullHandler())
 logging.getLogger("behave.active_tags").propagate = False
@@ -225,7 +226,32 @@ def build_provider(mode, values):
             {c: build_value(d) for c, d in first.items()},
             ActiveTagValueProvider({c: (lambda v=build_value(d): v) for c, d in second.items()}),
         ])
+    if mode == "composite-provider-lazy":
+        first, second = split_values(values)
+        return CompositeActiveTagValueProvider([
+            {c: (lambda v=build_value(d): v) for c, d in first.items()},
+            GetOnlyProvider({}),
+            ActiveTagValueProvider({c: (lambda v=build_value(d): v) for c, d in second.items()}),
+        ])
     raise ValueError(mode)
+
+
+def check_provider_protocol(res, provider, values, where):
+    """Documented value-provider protocol: get(category, default) returns the category value, or the default
+    for an unknown category -- also when asked repeatedly (composite provider: cached)."""
+    for attempt in (1, 2):
+        for category in sorted(values):
+            got = provider.get(category, None)
+            desc = values[category]
+            bad = (got != desc) if isinstance(desc, str) else (got is None or isinstance(got, str))
+            if bad:
+                shown = "a %s" % type(got).__name__ if callable(got) else repr(got)
+                res.fail("C19.provider-get", "get(%r, None) #%d returned %s; %s" % (category, attempt, shown, where()))
+                return
+        got = provider.get("zz.unknown", "dflt")
+        if got != "dflt":
+            res.fail("C19.provider-get", "get('zz.unknown', 'dflt') #%d returned %r; %s" % (attempt, got, where()))
+            return
 
 
 def norm_cfg(cfg):
@@ -342,14 +368,15 @@ def evaluate(res, tags, values, mode, cfg, parsed=None):
             matcher = CompositeTagMatcher(members)
             expected = (ref_excluded(active, first, ignore_unknown) or ref_excluded(active, second, ignore_unknown))
         else:
-            matcher = build_active_matcher(build_provider(mode, values), cfg)
+            provider = build_provider(mode, values)
+            matcher = build_active_matcher(provider, cfg)
             expected = ref_excluded(active, values, ignore_unknown)
     except Exception as e:      # noqa
         res.fail("C19.separator-not-literal.raises" if meta else "C19.construction-raises",
                  "building the matcher raised %s: %s; %s"
                  % (type(e).__name__, e, _describe(tags, values, mode, cfg)), mode=mode)
         return 1
-    queries = 2 if mode == "composite-provider" else 1
+    queries = 2 if mode.startswith("composite-provider") else 1
     first_verdict = None
     for q in range(queries):
         try:
@@ -378,6 +405,8 @@ def evaluate(res, tags, values, mode, cfg, parsed=None):
             res.fail(clause, "should_exclude_with=%r (query #%d), documented logic gives %r; %s"
                      % (excl, q + 1, expected, _describe(tags, values, mode, cfg)), mode=mode, expected=expected)
             break
+    if queries == 2:
+        check_provider_protocol(res, provider, values, lambda: _describe(tags, values, mode, cfg))
     res.label("excluded" if expected else "runs")
     return queries
 
@@ -466,17 +495,24 @@ def check_composite(res, case):
         res.evals = 0
         return res
     expected = any(verdicts)
-    matcher = CompositeTagMatcher([build_member(m) for m in members])
-    excl = matcher.should_exclude_with(list(tags))
-    run = matcher.should_run_with(list(tags))
     where = "tags=%s members=%s (own member verdicts %s)" % (tags, members, verdicts)
+    try:
+        matcher = CompositeTagMatcher([build_member(m) for m in members])
+        excl = matcher.should_exclude_with(list(tags))
+        run = matcher.should_run_with(list(tags))
+    except Exception as e:      # noqa
+        res.fail("C19.query-raises", "composite matcher raised %s: %s; %s" % (type(e).__name__, e, where))
+        return res
     if bool(run) != (not excl):
         res.fail("C19.run-is-not-exclude", "should_run_with=%r but should_exclude_with=%r; %s" % (run, excl, where))
     if bool(excl) != expected:
         # is one of the members wrong on its own, or the composition?
         own_wrong = False
         for m, v in zip(members, verdicts):
-            if bool(build_member(m).should_exclude_with(list(tags))) != v:
+            try:
+                if bool(build_member(m).should_exclude_with(list(tags))) != v:
+                    own_wrong = True
+            except Exception:       # noqa
                 own_wrong = True
         res.fail("C19.composite-member-wrong" if own_wrong else "C19.composite-matcher",
                  "composite should_exclude_with=%r, documented 'any member excludes' gives %r; %s"
@@ -722,7 +758,7 @@ def gen_composite_case(rnd):
         if what <= 6:
             subset = _sample(rnd, cats, len(cats))
             m = {"values": {c: values[c] for c in sorted(subset)},
-                 "mode": rnd.choice(["dict", "vo", "atvp", "getonly", "composite-provider"])}
+                 "mode": rnd.choice(["dict", "vo", "atvp", "getonly", "composite-provider", "composite-provider-lazy"])}
             if cfg is not None:
                 m["cfg"] = cfg
             members.append(m)
@@ -757,9 +793,9 @@ def explore(rec):
     else:
         rec.enum("typed-multisets<=3:all-values:all-providers", typed_enumeration([0, 1, 2, 3]))
     # (c)-(e)
-    rec.hyp("random-configuration", _strategy(gen_matrix_case), 60000 if quick else 3000000)
-    rec.hyp("composite-matcher", _strategy(gen_composite_case), 24000 if quick else 800000)
-    rec.hyp("regex-special-separator", _strategy(gen_literal_sep_case), 6000 if quick else 100000)
+    rec.hyp("random-configuration", _strategy(gen_matrix_case), 60000 if quick else 1500000)
+    rec.hyp("composite-matcher", _strategy(gen_composite_case), 24000 if quick else 400000)
+    rec.hyp("regex-special-separator", _strategy(gen_literal_sep_case), 6000 if quick else 60000)
 
 
 def required_labels(tier):
